@@ -169,6 +169,137 @@ Proof.
   - eapply sweep_long_lok; [exact E2| |]; eapply lok_keep; eauto.
 Qed.
 
+(* ------------------------------------------------------------------ the queued request's record is in the store *)
+Lemma free_lock_other s r x : x <> r -> aget (store (free_lock s r)) x = aget (store s) x.
+Proof.
+  intros Hne. unfold free_lock. destruct (aget (store s) r); auto. rewrite store_updm. cbn [store].
+  change (aget (adel (store s) r) x = aget (store s) x). rewrite aget_adel.
+  destruct (r =? x) eqn:E; auto. apply N.eqb_eq in E. congruence.
+Qed.
+
+Lemma unref_other s r x : x <> r -> aget (store (unref s r)) x = aget (store s) x.
+Proof.
+  intros Hne. unfold unref. destruct (aget (store s) r) eqn:E0; auto.
+  assert (X : aget (store (setl s r (l <| l_refc := dec8 (l_refc l) |>))) x = aget (store s) x).
+  { rewrite store_setl, aget_aset. destruct (r =? x) eqn:E; auto. apply N.eqb_eq in E. congruence. }
+  destruct (_ =? 0); auto. rewrite free_lock_other; auto.
+Qed.
+
+Lemma wq_compact_other items x : forall s s' kept, wq_compact s items = (s', kept) -> ~ In x items ->
+  aget (store s') x = aget (store s) x.
+Proof.
+  induction items as [|r rest IH]; cbn; intros s s' kept H Hn; [inv H; auto|].
+  destruct (dead_waiter (getl s r)).
+  - rewrite (IH _ _ _ H); [|tauto]. apply unref_other. intros ->. tauto.
+  - destruct (wq_compact s rest) as [s1 k1] eqn:E0. inv H. eapply IH; eauto.
+Qed.
+
+Lemma wq_push_other s q r s' q' x : wq_push s q r = (s', q') -> ~ In x (wq_items q) -> aget (store s') x = aget (store s) x.
+Proof.
+  unfold wq_push, wq_items. intros H Hn.
+  destruct (wq_mode q); try (inv H; reflexivity).
+  destruct (wq_cap q =? 0); [inv H; reflexivity|].
+  destruct (wq_len q <? wq_cap q); [inv H; reflexivity|].
+  destruct (wq_fast q) as [|a rest] eqn:Ef; [inv H; reflexivity|].
+  destruct (wq_compact s (a :: rest)) as [s1 kept] eqn:Ec.
+  assert (X := wq_compact_other _ x _ _ _ Ec ltac:(intros Hi; apply Hn; apply in_app_iff; auto)).
+  destruct (_ <? wq_len q); [inv H; auto|].
+  destruct (wq_cap q <=? 128); inv H; auto.
+Qed.
+
+Lemma add_wait_lock_new s k r l :
+  aget (store s) r = Some l -> ~ wref s r ->
+  exists l', aget (store (add_wait_lock s k r)) r = Some l' /\ l_ack l' = l_ack l /\ view_of l' = view_of l.
+Proof.
+  intros Hl Hw. unfold add_wait_lock.
+  match goal with |- context [wq_push s ?q r] => set (q0 := q); destruct (wq_push s q0 r) as [s1 q1] eqn:Ep end.
+  assert (Hq0 : ~ In r (wq_items q0)).
+  { subst q0. intros Hi. apply Hw. destruct (m_wait (getm s k)) as [q|] eqn:Eq; [|destruct Hi].
+    assert (X : In r (wq_items q)).
+    { destruct (_ && _); auto. destruct (wq_head q); auto. destruct (_ =? _); auto. apply wq_repush_incl in Hi; auto. }
+    eapply getm_wref; eauto. }
+  assert (X := wq_push_other _ _ _ _ _ r Ep Hq0). rewrite Hl in X. cbv beta iota zeta.
+  eexists. split. rewrite store_updm, aget_store_updl, N.eqb_refl, X; cbn; reflexivity. split; reflexivity.
+Qed.
+
+Lemma store_set_tlong s x : store (s <| tlong := x |>) = store s. Proof. reflexivity. Qed.
+Lemma store_set_twheel s x : store (s <| twheel := x |>) = store s. Proof. reflexivity. Qed.
+
+Lemma add_timeout_rec s r l :
+  aget (store s) r = Some l ->
+  exists l', aget (store (add_timeout s r)) r = Some l' /\ l_ack l' = l_ack l /\ l_cmd l' = l_cmd l /\ l_conn l' = l_conn l /\ l_timeouted l' = false.
+Proof.
+  intros Hl. unfold add_timeout.
+  set (s1 := updl s r (fun l => l <| l_timeouted := false |>)).
+  assert (H1 : aget (store s1) r = Some (l <| l_timeouted := false |>)) by (subst s1; rewrite aget_store_updl, N.eqb_refl, Hl; reflexivity).
+  clearbody s1. destruct (QUEUE_MAX_WAIT <? _).
+  - eexists. split; [rewrite store_set_tlong, aget_store_updl, N.eqb_refl, H1; cbn; reflexivity|]. repeat split; reflexivity.
+  - eexists. split; [rewrite aget_store_updl, N.eqb_refl, store_set_twheel, H1; cbn; reflexivity|]. repeat split; reflexivity.
+Qed.
+
+Lemma wref_same s s' x : mgrs s' = mgrs s -> wref s' x -> wref s x.
+Proof. intros E (k & m & q & H & Hq & Hi). rewrite E in H. exists k, m, q. auto. Qed.
+
+Lemma queued_present S0 k conn c s1 r :
+  new_lock S0 k conn c = (s1, r) -> (forall x, wref S0 x -> x < next S0) ->
+  exists l', aget (store (updl (add_timeout (add_wait_lock s1 k r) r) r (fun l => l <| l_refc := add8 (l_refc l) 1 |>))) r = Some l'
+             /\ l_ack l' = 255 /\ l_cmd l' = c /\ l_conn l' = conn /\ l_timeouted l' = false.
+Proof.
+  intros Hn Hw. destruct (new_lock_tr _ _ _ _ _ _ Hn) as (Hr & _ & P & V & A & _ & Hm).
+  assert (Hl : aget (store s1) r = Some (getl s1 r)).
+  { unfold getl. unfold present in P. destruct (aget (store s1) r); [reflexivity|congruence]. }
+  assert (Hnw : ~ wref s1 r).
+  { intros X. assert (Y : wref S0 r).
+    { destruct X as (k0 & m & q & H & Hq & Hi). rewrite Hm, aget_mgrs_updm in H. destruct (k =? k0) eqn:Ek.
+      - apply N.eqb_eq in Ek. subst. destruct (aget (mgrs S0) k0) as [m1|] eqn:E1; [|discriminate]. inv H. exists k0, m1, q. auto.
+      - exists k0, m, q. auto. }
+    apply Hw in Y. lia. }
+  destruct (add_wait_lock_new _ k _ _ Hl Hnw) as (l1 & H1 & A1 & V1).
+  destruct (add_timeout_rec _ _ _ H1) as (l2 & H2 & A2 & C2 & N2 & T2).
+  eexists. split; [rewrite aget_store_updl, N.eqb_refl, H2; cbn; reflexivity|].
+  apply view_eq_inv in V1. destruct V1 as (Vc & Vn & _). unfold view_of in V. inv V.
+  repeat split; cbn; congruence.
+Qed.
+
+Lemma update_and_rearm_norep' s k r c s' ev : update_and_rearm s k r c = (s', ev) -> rinfos ev = [].
+Proof. apply update_and_rearm_norep. Qed.
+
+Lemma lock_step_queued s conn c s' ev w :
+  lock_step s conn c = (s', ev, w) -> core_cmd c -> rinfos ev = [] -> (forall x, wref s x -> x < next s) ->
+  exists l', aget (store s') (next s) = Some l' /\ l_ack l' = 255 /\ c_req (l_cmd l') = c_req c /\ l_timeouted l' = false.
+Proof.
+  intros H Hcore HR Hw. assert (Hcore0 := Hcore). destruct Hcore as (Hack & Hms & Hems & Hdata).
+  unfold lock_step in H. cbv beta zeta in H.
+  set (k := c_key c) in *.
+  match type of H with context [if has (c_flag c) LOCK_FLAG_SHOW then ?a else c] =>
+    set (c1 := if has (c_flag c) LOCK_FLAG_SHOW then a else c) in H end.
+  assert (Hc1 : c_req c1 = c_req c /\ c_tflag c1 = c_tflag c /\ c_eflag c1 = c_eflag c /\ c_data c1 = c_data c
+                /\ c_key c1 = c_key c).
+  { subst c1. destruct (has (c_flag c) LOCK_FLAG_SHOW); cbn; auto. }
+  clearbody c1. destruct Hc1 as (Hreq1 & Htf1 & Hef1 & Hd1 & Hk1).
+  destruct (aget (mgrs s) k) as [m0|] eqn:Hmgr.
+  all: cbv iota in H.
+  all: brk.
+  all: repeat match goal with HP : process_data _ _ _ _ _ = _ |- _ =>
+         rewrite process_data_nodata in HP by congruence; injs end.
+  all: try congruence.
+  all: try solve [exfalso; match goal with HB : (0 <? m_locked (getm (bump _ (setm _ _ new_mgr)) _)) = true |- _ =>
+         rewrite getm_bump_setm_new in HB; vm_compute in HB; discriminate HB end].
+  all: try solve [exfalso; rewrite ?Htf1 in *; rewrite ?Hef1 in *;
+         repeat match goal with HB : _ && _ = true |- _ => apply andb_true_iff in HB; destruct HB end; congruence].
+  all: try solve [exfalso; revert HR; norep2;
+         repeat match goal with HU : update_and_rearm _ _ _ _ = (_, ?aev) |- context [rinfos ?aev] =>
+           rewrite (update_and_rearm_norep _ _ _ _ _ _ HU) end; cbn; discriminate].
+  all: match goal with Hn : new_lock ?S0 _ _ ?c' = (?s1, ?r) |- _ =>
+         destruct (queued_present _ _ _ _ _ _ Hn) as (l' & Hl' & A & C & Cn & T);
+         [ intros x Hx; apply Hw; revert Hx; clear;
+           first [ exact (fun h => h)
+                 | intros (k0 & m & q & Hm & Hq & Hi); change (mgrs (bump _ (setm s k new_mgr))) with (aset (mgrs s) k new_mgr) in Hm;
+                   rewrite aget_aset in Hm; destruct (k =? k0); [inv Hm; discriminate|exists k0, m, q; auto] ]
+         | destruct (new_lock_tr _ _ _ _ _ _ Hn) as (Hr & _);
+           exists l'; split; [rewrite <- Hr at 1; exact Hl'|]; split; [exact A|]; split; [rewrite C; first [exact Hreq1|reflexivity]|exact T] ] end.
+Qed.
+
 (* ------------------------------------------------------------------ the completeness invariant *)
 Definition has_term (q : N) (H : list rinfo) : Prop := exists i, In i H /\ i_req i = q /\ i_res i <> R_EXPRIED.
 
@@ -260,4 +391,123 @@ Proof.
       * destruct (Hr _ Hl0 Ht0) as [Ht|(l' & Hl' & Ec & Et)]; [left; congruence|].
         right. exists r, l'. split; auto. split; auto. congruence.
       * destruct (PERS _ _ Hl0 Ht0 Hne) as (l' & Hl' & [LT _] & Ec). right. exists r0, l'. split; auto. split; auto. congruence.
+Qed.
+
+(* ------------------------------------------------------------------ instances *)
+Lemma good_dead s x : good s x -> dead s x. Proof. intros [H _]; exact H. Qed.
+
+Lemma invl_keep I H s s' (D E W : ref -> Prop) :
+  InvL I H s -> keepx s s' -> plx D E W s s' ->
+  (forall x, D x -> dead s x) -> (forall x, E x -> good s' x) -> (forall x, W x -> x < next s') -> InvL I H s'.
+Proof.
+  intros L K P HD HE HW. assert (W' := inv_keepx _ _ _ _ (il_inv _ _ _ L) K).
+  apply (invl_gen I I H H s s' (next s') D E W L W'); auto.
+  - apply keepx_offr; auto.
+  - intros l' Hl'. apply (inv_dom _ _ _ W') in Hl'. lia.
+  - intros Hx. apply (il_eok _ _ _ L) in Hx. destruct Hx as [_ Hx]. assert (X := keepx_n _ _ K). lia.
+  - intros l Hl. apply (inv_dom _ _ _ (il_inv _ _ _ L)) in Hl. assert (X := keepx_n _ _ K). lia.
+Qed.
+
+Lemma invl_own I H s conn q res :
+  InvL I H s -> fresh I q -> res <> R_EXPRIED -> InvL (issue I conn q) (H ++ [(conn, q, res)]) s.
+Proof.
+  intros L F Hres. assert (W' := inv_own_reply _ _ _ conn _ _ (il_inv _ _ _ L) F Hres).
+  apply (invl_gen I _ H _ s s (next s) (fun _ => False) (fun _ => False) (fun _ => False) L W').
+  - apply keepx_offr. apply keep_keepx, keep_refl.
+  - apply plx_refl.
+  - intros x [].
+  - intros x [].
+  - intros x [].
+  - intros l' Hl'. apply (inv_dom _ _ _ W') in Hl'. lia.
+  - intros Hx. apply (il_eok _ _ _ L) in Hx. destruct Hx as [_ Hx]. lia.
+  - intros i Hi. apply in_app_iff. auto.
+  - intros c0 q0 [Hq|[-> ->]]; auto. right. left. exists (conn, q, res). split; [apply in_app_iff; right; left; auto|auto].
+  - intros l Hl. apply (inv_dom _ _ _ (il_inv _ _ _ L)) in Hl. lia.
+Qed.
+
+Lemma invl_answer I H s s' r l V res (D E W : ref -> Prop) :
+  InvL I H s -> aget (store s) r = Some l -> l_timeouted l = false -> chg1 s s' r V ->
+  (forall v, V v -> v_cmd v = l_cmd l /\ v_conn v = l_conn l /\ v_to v = true
+                    /\ (v_ex v = false -> res = R_SUCCED \/ res = R_LOCKED_ERROR)) ->
+  res <> R_EXPRIED ->
+  plx D E W s s' -> (forall x, D x -> x = r \/ dead s x) -> (forall x, E x -> good s' x) -> (forall x, W x -> x < next s') ->
+  InvL I (H ++ [(l_conn l, c_req (l_cmd l), res)]) s'.
+Proof.
+  intros L Hl Ht C HV Hres P HD HE HW.
+  assert (W' := inv_answer _ _ _ _ _ _ _ _ (il_inv _ _ _ L) Hl Ht C HV Hres).
+  apply (invl_gen I I H _ s s' r D E W L W'); auto.
+  - eapply chg1_offr; eauto.
+  - intros l' Hl' Ht'. exfalso. assert (X := chg_v _ _ _ _ C _ _ Hl'). rewrite N.eqb_refl in X.
+    destruct (HV _ X) as (_ & _ & E3 & _). unfold view_of, v_to in E3. cbn in E3. congruence.
+  - intros Hx. apply (il_eok _ _ _ L) in Hx. destruct Hx as [Hx _]. unfold dead in Hx. rewrite (getl_some _ _ _ Hl) in Hx. congruence.
+  - intros i Hi. apply in_app_iff. auto.
+  - intros l0 Hl0 _. left. assert (l0 = l) by congruence. subst l0.
+    exists (l_conn l, c_req (l_cmd l), res). split; [apply in_app_iff; right; left; auto|auto].
+Qed.
+
+Lemma invl_expire I H s s' r l V (D E W : ref -> Prop) :
+  InvL I H s -> aget (store s) r = Some l -> l_expried l = false -> chg1 s s' r V ->
+  (forall v, V v -> v_cmd v = l_cmd l /\ v_conn v = l_conn l /\ v_to v = l_timeouted l /\ v_ex v = true) ->
+  plx D E W s s' -> (forall x, D x -> x = r \/ dead s x) -> (forall x, E x -> good s' x) -> (forall x, W x -> x < next s') ->
+  InvL I (H ++ [(l_conn l, c_req (l_cmd l), R_EXPRIED)]) s'.
+Proof.
+  intros L Hl Hx C HV P HD HE HW.
+  assert (W0 := il_inv _ _ _ L).
+  assert (Hto : l_timeouted l = true).
+  { destruct (l_timeouted l) eqn:E0; auto. rewrite (inv_wait_exp _ _ _ _ _ W0 Hl E0) in Hx. discriminate. }
+  assert (W' := inv_expire _ _ _ _ _ _ _ W0 Hl Hx C HV).
+  apply (invl_gen I I H _ s s' r D E W L W'); auto.
+  - eapply chg1_offr; eauto.
+  - intros l' Hl' Ht'. exfalso. assert (X := chg_v _ _ _ _ C _ _ Hl'). rewrite N.eqb_refl in X.
+    destruct (HV _ X) as (_ & _ & E3 & _). unfold view_of, v_to in E3. cbn in E3. congruence.
+  - intros _. split; [|apply (inv_dom _ _ _ W0) in Hl; assert (X := chg_n _ _ _ _ C); lia].
+    unfold dead, getl. destruct (aget (store s') r) as [l'|] eqn:El'; auto.
+    assert (X := chg_v _ _ _ _ C _ _ El'). rewrite N.eqb_refl in X.
+    destruct (HV _ X) as (_ & _ & E3 & _). unfold view_of, v_to in E3. cbn in E3. congruence.
+  - intros i Hi. apply in_app_iff. auto.
+  - intros l0 Hl0 Ht0. assert (l0 = l) by congruence. subst l0. congruence.
+Qed.
+
+Lemma invl_install_reply I H s s' r V conn q res (D E W : ref -> Prop) :
+  InvL I H s -> fresh I q -> chg1 s s' r V -> r < next s' ->
+  (forall v, V v -> c_req (v_cmd v) = q /\ core_flags (v_cmd v) /\ v_conn v = conn /\ v_to v = true) ->
+  res = R_SUCCED \/ res = R_LOCKED_ERROR ->
+  (forall l, aget (store s) r = Some l -> l_timeouted l = true) ->
+  plx D E W s s' -> (forall x, D x -> x = r \/ dead s x) -> (forall x, E x -> good s' x) -> (forall x, W x -> x < next s') ->
+  InvL (issue I conn q) (H ++ [(conn, q, res)]) s'.
+Proof.
+  intros L F C Hlt HV Hres Hrd P HD HE HW.
+  assert (W' := inv_install_reply _ _ _ _ _ _ _ _ _ (il_inv _ _ _ L) F C Hlt HV Hres).
+  apply (invl_gen I _ H _ s s' r D E W L W'); auto.
+  - eapply chg1_offr; eauto.
+  - intros l' Hl' Ht'. exfalso. assert (X := chg_v _ _ _ _ C _ _ Hl'). rewrite N.eqb_refl in X.
+    destruct (HV _ X) as (_ & _ & _ & E3). unfold view_of, v_to in E3. cbn in E3. congruence.
+  - intros _. split; auto.
+    unfold dead, getl. destruct (aget (store s') r) as [l'|] eqn:El'; auto.
+    assert (X := chg_v _ _ _ _ C _ _ El'). rewrite N.eqb_refl in X.
+    destruct (HV _ X) as (_ & _ & _ & E3). unfold view_of, v_to in E3. cbn in E3. congruence.
+  - intros i Hi. apply in_app_iff. auto.
+  - intros c0 q0 [Hq|[-> ->]]; auto. right. left. exists (conn, q, res). split; [apply in_app_iff; right; left; auto|].
+    split; auto. cbn. destruct Hres as [-> | ->]; intro X; vm_compute in X; discriminate X.
+  - intros l Hl Ht. rewrite (Hrd _ Hl) in Ht. discriminate.
+Qed.
+
+Lemma invl_install_wait I H s s' r V conn q (D E W : ref -> Prop) :
+  InvL I H s -> fresh I q -> chg1 s s' r V -> r < next s' -> next s <= r ->
+  (forall x, href s' x -> href s x) ->
+  (forall v, V v -> c_req (v_cmd v) = q /\ core_flags (v_cmd v) /\ v_conn v = conn /\ v_ex v = true) ->
+  (exists l', aget (store s') r = Some l' /\ l_ack l' = 255 /\ c_req (l_cmd l') = q /\ l_timeouted l' = false) ->
+  plx D E W s s' -> (forall x, D x -> x = r \/ dead s x) -> (forall x, E x -> good s' x) -> (forall x, W x -> x < next s') ->
+  InvL (issue I conn q) H s'.
+Proof.
+  intros L F C Hlt Hge Hh HV (l1 & Hl1 & A1 & Q1 & T1) P HD HE HW.
+  assert (W0 := il_inv _ _ _ L).
+  assert (W' : Inv (issue I conn q) H s').
+  { eapply inv_install_wait; eauto. intros Hx. apply (inv_href _ _ _ W0) in Hx. lia. }
+  apply (invl_gen I _ H _ s s' r D E W L W'); auto.
+  - eapply chg1_offr; eauto.
+  - intros l' Hl' _. congruence.
+  - intros Hx. apply (il_eok _ _ _ L) in Hx. destruct Hx as [_ Hx]. lia.
+  - intros c0 q0 [Hq|[-> ->]]; auto. right. right. exists l1. auto.
+  - intros l Hl. apply (inv_dom _ _ _ W0) in Hl. lia.
 Qed.
